@@ -2013,6 +2013,9 @@ def search(ck: Ck, root: str) -> None:
                 break
             note(guarded('chain', lambda: check_chain(root, sets, list(perm), None, stats, seed, ck.hist),
                          {'op': 'chain', 'sets': [[(a, b.decode()) for a, b in s] for s in sets], 'members': [list(m) for m in perm], 'seed': seed}))
+    ck.sample({'walk_history': {'ways_of_giving_a_walk_up': list(ABANDON_MODES), 'example': ['vpk.walk_folder(\'materials\') given up after 1 item (take1)',
+                                'then the complete vpk.walk_folder(\'MATERIALS\\\\\') and, for the root, iter(vpk)']},
+               'chain_systems_edits': ['pop-first', 'reverse', 'rotate', 'pop-last', 'swap-first-two', 'insert-copy-of-last-first']})
     ck.sample({'chain_members(kind,set,prefix,priority)': [list(x) for x in CORPUS_CHAINS[2][1]],
                'sets': [[nm for nm, _ in s] for s in CORPUS_CHAINS[2][0]]})
     for key, (what, rep) in sorted(found.items()):
